@@ -102,6 +102,22 @@ func runC16(c *fw.Case) {
 			cand.close()
 			continue
 		}
+		if c.Index%2 == 0 && attempt < 60 {
+			// every other case wants a graph in which some layer holds several modules: they are executed concurrently, and a
+			// module failure there takes another error path than in a one-module layer
+			wide := false
+			for _, st := range pl.Graph.StagedUsedModules() {
+				for _, layer := range st {
+					if len(layer) >= 2 {
+						wide = true
+					}
+				}
+			}
+			if !wide {
+				cand.close()
+				continue
+			}
+		}
 		r2, err := cand.cl.NewRemoteTier2(0)
 		if err != nil {
 			cand.close()
@@ -269,6 +285,16 @@ func runC16(c *fw.Case) {
 	for _, m := range ref.Graph.UsedModules() {
 		cands = append(cands, m.Name)
 	}
+	concurrentLayer := map[string]bool{}
+	for _, st := range ref.Graph.StagedUsedModules() {
+		for _, layer := range st {
+			if len(layer) >= 2 {
+				for _, m := range layer {
+					concurrentLayer[m.Name] = true
+				}
+			}
+		}
+	}
 	var dout []*c16Outcome
 	var mu sync.Mutex
 	for _, b := range bs {
@@ -286,7 +312,20 @@ func runC16(c *fw.Case) {
 				continue
 			}
 			sort.Strings(execs)
+			// modules of a layer with several modules run concurrently (another error path than the sequential one): prefer them
+			var conc []string
+			for _, m := range execs {
+				if concurrentLayer[m] {
+					conc = append(conc, m)
+				}
+			}
 			failing := execs[c.R.Intn(len(execs))]
+			if len(conc) > 0 && c.R.Intn(3) != 0 {
+				failing = conc[c.R.Intn(len(conc))]
+			}
+			if concurrentLayer[failing] {
+				c.Count("deterministic_failures_in_a_concurrently_executed_layer", 1)
+			}
 			wg.Add(1)
 			go func(b uint64, prod bool, failing string) {
 				defer wg.Done()
